@@ -1,5 +1,5 @@
 """Which contracts decide which property."""
-from . import indexing, bases, align, axes, metadata, reshape, dataset
+from . import indexing, bases, align, axes, metadata, reshape, dataset, missing
 
 GLOBAL_ASSUMPTIONS = [
     "NumPy implements the contracts in dverif/symnp.py (validated by sampling against the installed NumPy, never proved)",
@@ -16,7 +16,7 @@ PROPERTIES = {
         "level": "proof",
         "min_obligations": 2000,
     },
-    "T": {"contracts": [dataset.DatasetSetItem, dataset.DatasetDelItem, dataset.DatasetRelabel], "level": "proof"},
+    "T": {"contracts": [missing.FillNa, missing.SetNa, missing.CompressAxis, missing.DropNa1D], "level": "proof"},
     "C03": {
         "contracts": [bases.SetItem, indexing.MaybeCastType, (bases.Accessors, r"write|put|setitem"), (bases.ItemForwarding, r"^set"),
                       (bases.GetIndices, r"^r[01]-")],
@@ -49,6 +49,11 @@ PROPERTIES = {
                       align.GetAlignedAxes, (align.Align, r"-inner-")],
         "level": "proof",
         "min_obligations": 2000,
+    },
+    "C17": {
+        "contracts": [align.SortAxis, align.TakeAxis, missing.CompressAxis, missing.FillNa, missing.SetNa, missing.DropNa1D],
+        "level": "proof",
+        "min_obligations": 200,
     },
     "C16": {
         "contracts": [metadata.AttrRouting, metadata.AttrsProperty, metadata.AxisMetadataSurvivesIndexing,
